@@ -9,7 +9,9 @@ package main
 // Masterminds/semver and go-containerregistry to the Lean model as oracle tables.
 //
 // This file: shared types, oracle tables, string pools, registration.
-// c17_dag.go: DAG scenarios; c17_ver.go: version selection; c17_res.go: Resolve and Reconcile.
+// c17_dag.go: DAG scenarios; c17_ver.go: version selection; c17_res.go: Resolve (incl. the
+// realisation of concurrent writers of the Lock) and Reconcile; c17_env.go: generator of the
+// Resolve-next-to-other-writers scenarios.
 
 import (
 	"fmt"
@@ -270,14 +272,16 @@ func init() {
 		}
 		for i := 0; i < c.N; i++ {
 			switch k := c.Rng.Intn(20); {
-			case k < 5:
+			case k < 4:
 				c17DagRandom(c)
-			case k < 8:
+			case k < 7:
 				c17InstallRandom(c)
-			case k < 12:
+			case k < 10:
 				c17UpdateRandom(c)
-			case k < 16:
+			case k < 13:
 				c17ResolveRandom(c)
+			case k < 16:
+				c17ResolveInterfRandom(c)
 			default:
 				c17ReconcileRandom(c)
 			}
